@@ -1,5 +1,6 @@
 import ShellOp.Proofs.MetricsRepl
 import ShellOp.Proofs.MetricsU
+import ShellOp.Proofs.MetricsSim
 /-!
 # C16 — hook metrics: validated as a batch; grouped metrics replaced, not accumulated
 
@@ -73,21 +74,33 @@ no write operation of the batch addresses a series (name, label values) that `g'
 hypothesis the statement is false — `cross_group_witness`. -/
 theorem other_groups_untouched_partial (st : State) (common : Labels) (ops : List Op) (order : List Nat)
     (g' : Nat) (hg' : g' ∉ order)
-    (hno : ∀ op ∈ ops, op.action ≠ "expire" → ∀ e ∈ owned st.gentries g', (e.name, e.key) ≠ opIdent common op) :
+    (hno : ∀ op ∈ ops, op.group ∈ order → op.action ≠ "expire" →
+      ∀ e ∈ owned st.gentries g', (e.name, e.key) ≠ opIdent common op) :
     owned (sendBatch st common ops order).1.gentries g' = owned st.gentries g' := by
   unfold sendBatch
   split
   · rfl
   · simp only
     rw [(sendBatchV0_g common _ _).2]
-    induction order generalizing st with
-    | nil => rfl
+    -- generalise the set of groups the hypothesis speaks about
+    suffices h : ∀ (todo : List Nat) (s : State), (∀ g ∈ todo, g ∈ order) → owned s.gentries g' = owned st.gentries g' →
+        owned (todo.foldl (fun st g => applyGroupOperations common st g (ops.filter (·.group == g))) s).gentries g'
+          = owned st.gentries g' from h order st (fun _ h => h) rfl
+    intro todo
+    induction todo with
+    | nil => intro s _ hs; exact hs
     | cons g gs ih =>
+      intro s hsub hs
       simp only [List.foldl_cons]
-      have hne : g ≠ g' := fun h => hg' (by simp [h])
-      have h1 := applyGroupOperations_owned_other common st g g' (ops.filter (·.group == g)) hne
-        (fun op hop hx e he => hno op (List.mem_filter.mp hop).1 hx e he)
-      rw [ih _ (fun h => hg' (List.mem_cons_of_mem _ h)) (by rw [h1]; exact hno), h1]
+      have hgo : g ∈ order := hsub g (by simp)
+      have hne : g ≠ g' := fun h => hg' (h ▸ hgo)
+      have h1 := applyGroupOperations_owned_other common s g g' (ops.filter (·.group == g)) hne
+        (fun op hop hx e he => by
+          have hm := List.mem_filter.mp hop
+          have hgr : op.group = g := by simpa using hm.2
+          rw [hs] at he
+          exact hno op hm.1 (hgr ▸ hgo) hx e he)
+      exact ih _ (fun x hx => hsub x (List.mem_cons_of_mem _ hx)) (h1.trans hs)
 
 theorem foldl_groups_IdIn_other (common : Labels) (ops : List Op) (order : List Nat) (g : Nat)
     (hg : g ∉ order) (st : State) (ids) (h : IdIn st.gentries g ids) :
@@ -256,6 +269,42 @@ theorem group_replacement_multi_partial (st : State) (common : Labels) (ops : Li
   have := foldl_written common g _ hp (ops.filter (·.group == g)) (fun _ h => h) (expireGroup s1 g) []
     hinv1.expire (fun k => by rw [ownedLookup_expire]; rfl) k
   simpa [applyGroupOperations, Spec.written, ownedLookup] using this
+
+/-- **C16.3 against the reference registry** (what the `oracle send` line evaluates): if the real
+store and the reference registry `ref` agree on what every group holds, then after any valid batch
+that stays outside the finding classes they still agree — for the groups the batch mentions (their
+series are replaced by exactly those of the batch) and for all others (untouched), whatever the
+iteration order of the Go map. -/
+theorem grouped_view_refines_partial (st : State) (ref : List Spec.RSeries) (common : Labels) (ops : List Op)
+    (order : List Nat) (hb : BatchOK common ops)
+    (hnd : order.Nodup) (hord : ∀ g, g ∈ order ↔ g ∈ groupsOf ops)
+    (hNoCross : ∀ op ∈ ops, op.group ≠ 0 → op.action ≠ "expire" →
+      ∀ e ∈ st.gentries, (e.name, e.key) = opIdent common op → e.group = op.group)
+    (hNoClash : ∀ op ∈ ops, op.group ≠ 0 → op.action ≠ "expire" →
+      getOrCreateColl st op.name (opFam op) ≠ none)
+    (hsim : ∀ g, g ≠ 0 → ∀ k, ownedLookup st.gentries g k = rview ref g k) :
+    ∀ g, g ≠ 0 → ∀ k, ownedLookup (sendBatch st common ops order).1.gentries g k =
+      rview (Spec.applyBatch ref common ops).1 g k := by
+  have hv : validBatch ops = true := by
+    simp only [validBatch, List.all_eq_true]; exact hb.valid
+  have h0 : 0 ∉ order := fun h => ((mem_groupsOf ops 0).mp ((hord 0).mp h)).1 rfl
+  intro g hg k
+  rw [rview_applyBatch ref common ops hv g hg k]
+  by_cases hm : g ∈ groupsOf ops
+  · simp only [hm, if_true]
+    exact group_replacement_multi_partial st common ops order g hb ((hord g).mpr hm) hnd h0
+      (fun op hop hgr hx e he hid => by rw [← hgr]; exact hNoCross op hop (by rw [hgr]; exact hg) hx e he hid)
+      (fun op hop hgr hx => hNoClash op hop (by rw [hgr]; exact hg) hx) k
+  · simp only [hm, if_false]
+    have hown := other_groups_untouched_partial st common ops order g (fun h => hm ((hord g).mp h)) (by
+      intro op hop hord' hx e he hEq
+      have heg : e.group = g := by simpa [owned] using (List.mem_filter.mp he).2
+      have hop0 : op.group ≠ 0 := fun h => h0 (h ▸ hord')
+      have := hNoCross op hop hop0 hx e (List.mem_filter.mp he).1 hEq
+      exact hm ((hord g).mp (by rw [← heg, this]; exact hord')))
+    unfold ownedLookup
+    rw [hown]
+    exact hsim g hg k
 
 /-- non-vacuity of `group_replacement_partial`: a state where `g = 1` already owns two series and
 another group owns one of the same name; the new batch re-sends one, drops one, adds a counter twice. -/
